@@ -1,6 +1,7 @@
 import MuduoVerif.Proofs.LogFile
 import MuduoVerif.Proofs.AsyncLog
 import MuduoVerif.Proofs.LogFileSkelTie
+import MuduoVerif.Proofs.ThreadSkelTie
 /-!
 # C16 — every log record handed to the back-end is written exactly once, whole, in order
 
@@ -315,5 +316,54 @@ example :
                         [.start, .test, .enter, .write, .stopCall, .test, .final, .stopJoin]) = some s ∧
       s.stopReturned = true ∧ recsOf s.disk = [⟨0, 0, 1⟩, ⟨0, 1, 1⟩] ∧ notesOf s.disk = [25] ∧ dropsOf s.ledger = [25] :=
   ⟨_, rfl, rfl, rfl, rfl, rfl⟩
+
+end MuduoVerif.C16
+
+namespace MuduoVerif.C16
+
+/-! ## the primitives under `AsyncLogging` (`Mutex.h`, `Condition.cc`, `CountDownLatch.cc`, `Thread.cc`) -/
+
+/-- **backend_primitives_tied**: what `Model/AsyncLog.lean` takes as atomic - `MutexLockGuard lock(mutex_)` in `append` and
+in the back-end's critical section, `cond_.notify()`, the timed wait `cond_.waitForSeconds(flushInterval_)` (pc `waiting`,
+moves `wake 0 / 1 / 2`), `thread_.start()` followed by `latch_.wait()` in `start()`, `latch_.countDown()` at the head of
+`threadFunc`, `thread_.join()` in `stop()` - is what muduo's wrappers ask pthread for: statement skeletons re-extracted
+from /repo on every run (`Generated/ThreadSkel.lean`), equal to `Model/ThreadSkelDecl.lean`.  In particular the timed wait
+is ONE clock reading, the two deadline assignments, and then the shape of `wait()` around `pthread_cond_timedwait` on the
+same condition, mutex and deadline, reporting "timed out" iff pthread said `ETIMEDOUT`. -/
+theorem backend_primitives_tied :
+    (Gen.ThreadSkel.lockGuardCtor = ThreadSkel.Decl.lockGuardCtor ∧
+     Gen.ThreadSkel.lockGuardDtor = ThreadSkel.Decl.lockGuardDtor ∧
+     Gen.ThreadSkel.mutexLock = ThreadSkel.Decl.mutexLock ∧
+     Gen.ThreadSkel.mutexUnlock = ThreadSkel.Decl.mutexUnlock) ∧
+    (Gen.ThreadSkel.condNotify = ThreadSkel.Decl.condNotify ∧
+     Gen.ThreadSkel.condWaitForSeconds = ThreadSkel.Decl.condWaitForSeconds ∧
+     Gen.ThreadSkel.unassignGuardCtor = ThreadSkel.Decl.unassignGuardCtor ∧
+     Gen.ThreadSkel.unassignGuardDtor = ThreadSkel.Decl.unassignGuardDtor) ∧
+    (Gen.ThreadSkel.latchWait = ThreadSkel.Decl.latchWait ∧
+     Gen.ThreadSkel.latchCountDown = ThreadSkel.Decl.latchCountDown ∧
+     Gen.ThreadSkel.threadStart = ThreadSkel.Decl.threadStart ∧
+     Gen.ThreadSkel.runInThread = ThreadSkel.Decl.runInThread ∧
+     Gen.ThreadSkel.threadJoin = ThreadSkel.Decl.threadJoin) :=
+  ⟨⟨ThreadSkel.skeleton_lockGuardCtor, ThreadSkel.skeleton_lockGuardDtor, ThreadSkel.skeleton_mutexLock,
+    ThreadSkel.skeleton_mutexUnlock⟩,
+   ⟨ThreadSkel.skeleton_condNotify, ThreadSkel.skeleton_condWaitForSeconds, ThreadSkel.skeleton_unassignGuardCtor,
+    ThreadSkel.skeleton_unassignGuardDtor⟩,
+   ⟨ThreadSkel.skeleton_latchWait, ThreadSkel.skeleton_latchCountDown, ThreadSkel.skeleton_threadStart,
+    ThreadSkel.skeleton_runInThread, ThreadSkel.skeleton_threadJoin⟩⟩
+
+/-- **flush_wait_deadline**: the deadline of the back-end's timed wait, `flushInterval` being the constructor's `int`
+(the product `flushInterval * 10^9` is exact in a `double`): for `flushInterval ≥ 0` it is a valid `timespec`, exactly
+`flushInterval` seconds after the clock reading; for `flushInterval < 0` - nothing in `AsyncLogging` or `Condition`
+excludes it - it is an INVALID one (negative `tv_nsec`) unless the reading happens to have `tv_nsec = 0`:
+`pthread_cond_timedwait` then fails with `EINVAL` at once, `waitForSeconds` reports "not timed out", and `threadFunc` goes
+round its loop without ever blocking.  Hence the assumption `flushInterval ≥ 0` of this property. -/
+theorem flush_wait_deadline (now : Gen.ThreadSkel.Timespec) (flushInterval : Int)
+    (h0 : 0 ≤ now.tv_nsec) (h1 : now.tv_nsec < 1000000000) :
+    (0 ≤ flushInterval →
+      (Gen.ThreadSkel.waitForSecondsDeadline now (flushInterval * 1000000000)).tv_sec = now.tv_sec + flushInterval ∧
+      (Gen.ThreadSkel.waitForSecondsDeadline now (flushInterval * 1000000000)).tv_nsec = now.tv_nsec) ∧
+    (flushInterval < 0 → 0 < now.tv_nsec →
+      (Gen.ThreadSkel.waitForSecondsDeadline now (flushInterval * 1000000000)).tv_nsec < 0) :=
+  ThreadSkel.deadline_whole_seconds now flushInterval h0 h1
 
 end MuduoVerif.C16
